@@ -15,6 +15,7 @@ import Proofs.C01.Totality
 import Proofs.C01.EntrySecp
 import Proofs.C01.Endo
 import Proofs.C01.EndoSecp
+import Proofs.C01.Sec
 /-!
 # C01 — curve and field arithmetic compute exactly the group law (DESIGN.md §3 C01)
 
@@ -628,5 +629,46 @@ call `liftX` (ECDSA sign/verify, ECDH, …) can be instantiated on every catalog
 theorem ec_ops_lawful_group {p : ℕ} [Fact p.Prime] {C : Curve} (K : CurveOk p C) :
     ∃ L : LawfulGroup (opsSub K) (Pt p C.toCurveGroup), ∀ P, L.abs P = absA p C.toCurveGroup P.1 :=
   ⟨lawfulGroup_ec K, fun _ => rfl⟩
+
+/-! ## T10 — the SEC 1 point codec (`sec_point.py`) -/
+
+/-- accepted set of the both-coordinates forms: prefix 04 — or 06/07 under `hybrid=True` with the parity of `y`
+matching —, length `2·p_size + 1`, `y ≠ 0`, and `is_on_curve` (coordinates in range, equation): exactly then, and the
+answer is the pair of big-endian coordinates -/
+theorem sec_both_coordinates_accepted_iff (g : CurveGroup) (pSize : ℕ) (hybrid : Bool) (pfxB : UInt8) (body : Bytes)
+    (Q : Point) (h23 : ¬ (pfxB.toNat = 2 ∨ pfxB.toNat = 3)) :
+    pointFromOctets g pSize hybrid (pfxB :: body) = .ok Q ↔
+      (pfxB.toNat = 4 ∨ (hybrid = true ∧ (pfxB.toNat = 6 ∨ pfxB.toNat = 7))) ∧
+      (pfxB :: body).length = 2 * pSize + 1 ∧
+      Q = ((ofBE (body.take pSize) : ℤ), (ofBE (body.drop pSize) : ℤ)) ∧ Q.2 ≠ 0 ∧
+      (pfxB.toNat ≠ 4 → Q.2 % 2 = (pfxB.toNat : ℤ) - 6) ∧ isOnCurveX g Q = some true :=
+  pointFromOctets_both_iff g pSize hybrid pfxB body Q h23
+
+/-- `is_on_curve(Q)` for `y ≠ 0` IS: `0 ≤ x < p`, `0 < y < p`, `y² ≡ x³ + ax + b` — so an off-curve pair, `x ≥ p` or
+`y ≥ p` is refused under every accepted prefix -/
+theorem is_on_curve_iff (g : CurveGroup) (Q : Point) (hy : Q.2 ≠ 0) :
+    isOnCurveX g Q = some true ↔
+      (0 ≤ Q.1 ∧ Q.1 < g.p) ∧ (0 < Q.2 ∧ Q.2 < g.p) ∧ y2 g Q.1 = Q.2 * Q.2 % g.p := isOnCurveX_true_iff g Q hy
+
+/-- any other prefix byte (00, 01, 05, 08…ff, and 06/07 without `hybrid`) is refused -/
+theorem sec_other_prefix_refused (g : CurveGroup) (pSize : ℕ) (hybrid : Bool) (pfxB : UInt8) (body : Bytes)
+    (h : ¬ (pfxB.toNat = 2 ∨ pfxB.toNat = 3 ∨ pfxB.toNat = 4 ∨ (hybrid = true ∧ (pfxB.toNat = 6 ∨ pfxB.toNat = 7)))) :
+    ∃ e, pointFromOctets g pSize hybrid (pfxB :: body) = .error e :=
+  pointFromOctets_refuses_prefix g pSize hybrid pfxB body h
+
+/-- round trip: `point_from_octets(bytes_from_point(Q, compressed=False)) = Q` -/
+theorem sec_roundtrip_uncompressed (g : CurveGroup) (pSize : ℕ) (hybrid : Bool) (Q : Point) (b : Bytes)
+    (hp : g.p ≤ 256 ^ pSize) (h : bytesFromPoint g pSize Q false = some b) :
+    pointFromOctets g pSize hybrid b = .ok Q := pointFromOctets_bytesFromPoint_uncompressed g pSize hybrid Q b hp h
+
+/-- compressed forms (PARTIAL: soundness on the closed-form square-root branches; the compressed round trip is not
+proved): the answer is `(x, y)` / `(x, p − y)` for the even root `y` the lift found, and — unless that root is `0`,
+the case of finding `sec.compressed_two_torsion` — a reduced point of the curve with the parity the prefix names -/
+theorem sec_compressed_sound_partial (g : CurveGroup) (pSize : ℕ) (hybrid : Bool) (pfxB : UInt8) (body : Bytes)
+    (Q : Point) (h23 : pfxB.toNat = 2 ∨ pfxB.toNat = 3) (hbr : g.p % 4 = 3 ∨ g.p % 8 = 5)
+    (h : pointFromOctets g pSize hybrid (pfxB :: body) = .ok Q) :
+    ∃ y, yEvenVar g (ofBE body) = some y ∧ Q = ((ofBE body : ℤ), if pfxB.toNat = 2 then y else g.p - y) ∧
+      (y ≠ 0 → isOnCurveX g Q = some true ∧ Q.2 % 2 = (pfxB.toNat : ℤ) - 2) :=
+  pointFromOctets_compressed_sound g pSize hybrid pfxB body Q h23 hbr h
 
 end Props.C01
